@@ -53,13 +53,22 @@ def make_case(rng, kind, c):
         ddat = rng.integers(-3, 4, size=len(didx)).astype(float)
     hmode = rng.choice(["scalar", "vector", "column", "zero"])
     h = dict(scalar=float(rng.normal()), vector=rng.normal(size=n), column=rng.normal(size=(n, 1)), zero=0.0)[hmode]
+    # storage type of the data: the equation is about the VALUES (integer / boolean / single-precision arrays are legitimate input)
+    hdtype = str(rng.choice(["float64", "float64", "int64", "bool", "float32", "int32"])) if hmode in ("vector", "column") else "float64"
+    if hdtype != "float64":
+        h = (np.rint(3 * h) if hdtype.startswith("int") else (h > 0) if hdtype == "bool" else h).astype(hdtype)
+    ddtype = str(rng.choice(["float64", "float64", "float32", "int64"]))
+    if ddtype == "int64" and dmode not in ("ints", "zero", "cancelling"):
+        ddtype = "float64"
+    ddat = ddat.astype(ddtype)
     if rng.random() < 0.4:
         nidx = sorted({int(x) for x in rng.choice(n, size=int(rng.integers(1, 4)))})
         ndat = rng.normal(size=len(nidx))
         ntup = (np.array(nidx), ndat)
     else:
         ntup = ()
-    return dict(kind=kind, v=v, t=t, lump=bool(rng.random() < 0.5), h=h, hmode=hmode, didx=np.array(didx), ddat=ddat, ntup=ntup, name=c["name"], dmode=dmode, pres=c.get("pres"), vdtype=c.get("vdtype"))
+    return dict(kind=kind, v=v, t=t, lump=bool(rng.random() < 0.5), h=h, hmode=hmode, didx=np.array(didx), ddat=ddat, ntup=ntup, name=c["name"], dmode=dmode, pres=c.get("pres"), vdtype=c.get("vdtype"),
+                hdtype=hdtype, ddtype=ddtype)
 
 
 def hvec(case, n):
@@ -106,7 +115,7 @@ class Check(BaseCheck):
             n = len(case["v"])
             gen.use(case)
             stats.case(core.mesh_key(case["v"], case["t"], case["didx"].tolist(), case["hmode"], case["lump"]),
-                       cls=[case["kind"] + ":" + case["name"], "h:" + case["hmode"], "dirichlet-data:" + case.get("dmode", "normal"), "neumann:%s" % bool(case["ntup"]), "lump:%s" % case["lump"]],
+                       cls=[case["kind"] + ":" + case["name"], "h:" + case["hmode"], "h-dtype:" + case.get("hdtype", "float64"), "dirichlet-dtype:" + case.get("ddtype", "float64"), "dirichlet-data:" + case.get("dmode", "normal"), "neumann:%s" % bool(case["ntup"]), "lump:%s" % case["lump"]],
                        sample=dict(kind=case["kind"], name=case["name"], n=n, dirichlet=len(case["didx"]), h=case["hmode"]))
             try:
                 s, calls, x = run_impl(case)
@@ -170,13 +179,13 @@ class Check(BaseCheck):
     def oracle(self, case):
         case = dict(case)
         case["v"] = np.asarray(case["v"], float); case["t"] = np.asarray(case["t"], dtype=np.int64)
-        case["didx"] = np.asarray(case["didx"], dtype=np.int64); case["ddat"] = np.asarray(case["ddat"], float)
+        case["didx"] = np.asarray(case["didx"], dtype=np.int64); case["ddat"] = np.asarray(case["ddat"], float).astype(case.get("ddtype", "float64"))
         if case.get("ntup"):
             case["ntup"] = (np.asarray(case["ntup"][0], dtype=np.int64), np.asarray(case["ntup"][1], float))
         else:
             case["ntup"] = ()
         if not np.isscalar(case["h"]):
-            case["h"] = np.asarray(case["h"], float)
+            case["h"] = np.asarray(case["h"], float).astype(case.get("hdtype", "float64"))
         if case.get("name", "").startswith("bad:"):
             return None
         n = len(case["v"])
